@@ -315,7 +315,8 @@ class VariableSizedTiles:
     def __dask_tokenize__(self):
         return (
             "odc.geo.roi.VariableSizedTiles",
-            *self._offsets,
+            # tuples, not arrays: text form of a large array is abbreviated
+            *(tuple(o.tolist()) for o in self._offsets),
         )
 
     def __str__(self) -> str:
